@@ -218,6 +218,27 @@ def observe(s, q, aq, rng, missing):
             obs.append({"kind": "groups", "path": "groupedby=QueryFacet(%d queries, other=%r, allow_overlap=%s)" % (
                         len(aqs), other, overlap), "f": "_query", "overlap": overlap, "qs": aqs, "groups": out})
         guard("groups:query", gq)
+    # the other views of the groups (FacetMap types) of an unlimited search, in result order
+    if c01_scored(aq) and not missing:
+        for fn, overlap in (("tag", False), ("num", False), ("multi", True), ("tagnc", False)):
+            mt = rng.choice(["list", "set", "count", "best"])
+            sort = [] if rng.random() < 0.5 else [[rng.choice(single), rng.random() < 0.4]]
+
+            def gv(fn=fn, overlap=overlap, mt=mt, sort=sort):
+                mtype = {"list": sorting.OrderedList, "set": sorting.UnorderedList, "count": sorting.Count,
+                         "best": sorting.Best}[mt]
+                kw = {"sortedby": sorting.FieldFacet(sort[0][0], reverse=sort[0][1])} if sort else {}
+                r = s.search(q, limit=None, groupedby={fn: sorting.FieldFacet(fn, allow_overlap=overlap, maptype=mtype)}, **kw)
+                pool = FIELDS[fn]
+                out = []
+                for key, v in r.groups(fn).items():
+                    if isinstance(key, bytes):
+                        key = key.decode("utf8")
+                    kid = pool.index(key) + 1 if key in pool else -1
+                    out.append([kid, [int(x) for x in v] if mt in ("list", "set") else int(v)])
+                obs.append({"kind": "groupview", "path": "groupedby=%s maptype=%s sortedby=%s" % (fn, mt, sort), "f": fn,
+                            "overlap": overlap, "maptype": mt, "sort": sort, "groups": out})
+            guard("groupview:" + fn, gv)
     # collapsing (by score ranking)
     if c01_scored(aq):
         for fn in ("tag", "num", "flag"):
@@ -270,6 +291,24 @@ def observe(s, q, aq, rng, missing):
                         "hasfilt": hasf, "hasmask": hasm, "filt": afilt, "mask": amask, "k": k,
                         "n": len(s.search(q, limit=k or None, **kw)), "n_unlimited": len(s.search(q, limit=None, **kw))})
         guard("filtered", ff)
+        # combining two Results objects
+        aq2 = world.rand_query(rng, 1, scored_only=True)
+        if c01_scored(aq2):
+            rop = rng.choice(["extend", "filter", "upgrade", "downgrade", "upgrade_and_extend"])
+            k1, k2 = rng.choice([0, 2, 3]), rng.choice([0, 1, 3])
+
+            def ro():
+                def mk():
+                    r1 = s.search(q, limit=k1 or None)
+                    r2 = s.search(world.to_query(aq2), limit=k2 or None)
+                    if rop == "downgrade":
+                        r1.upgrade(r2, reverse=True)
+                    else:
+                        getattr(r1, rop)(r2)
+                    return {"kind": "resultsop", "path": "search(limit=%d).%s(search(limit=%d))" % (k1, rop, k2), "op": rop,
+                            "q2": aq2, "k1": k1, "k2": k2, "docs": [int(h.docnum) for h in r1], "n": len(r1)}
+                limited(mk)
+            guard("resultsop", ro)
         # paging
         pagelen = rng.choice([1, 2, 3, 10])
         pagenum = rng.choice([1, 1, 2, 3, 7])
@@ -396,8 +435,11 @@ def check(run):
             want = dict((k, sorted(v)) for k, v in exp["groups"].items())
             if got == want and any(g[0] == -2 for g in o["groups"]):
                 extra[(ci, qi, oi)] = "column-facet-groups-missing-under-default"
-        if o["kind"] == "collapse" and o["docs"] == exp.get("docs_if_valueless_documents_share_a_key") \
-                and o["docs"] != exp.get("docs"):
+        if o["kind"] == "collapse" and not o["order"] \
+                and o["docs"] == exp.get("docs_if_valueless_documents_share_a_key") \
+                and o["len"] == exp.get("len_if_valueless_documents_share_a_key") \
+                and (o["docs"] != exp.get("docs") or o["len"] != exp.get("len")) \
+                and (o["collapsed"] < 0 or o["collapsed"] + o["len"] == exp.get("collapsed", 0) + exp.get("len", 0)):
             extra[(ci, qi, oi)] = "column-facet-groups-missing-under-default"
     # recorded finding: WrappingMatcher.replace() unscaled - recognised when the identical call with that
     # one method corrected is accepted by the specification
